@@ -21,7 +21,8 @@ TIERS = {"quick": {"n": 9000}, "thorough": {"n": 120000}}
 RULE = ("one call per case of chunked(+count,fill)/chunked_iter, windowed/windowed_iter, pairwise/pairwise_iter, "
         "split/split_iter (sep None|value|collection|callable, maxsplit), l/r/strip(+_iter), unique/unique_iter, "
         "redundant(groups), bucketize (callable/attr/list key, value_transform, key_filter), partition, chunk_ranges; "
-        "inputs: an exhaustive sweep of short lists over a 3-symbol alphabet (thorough: longer) plus random lists over "
+        "inputs: an exhaustive sweep of short lists over a 3-symbol alphabet (thorough: longer, plus the complete grid "
+        "size 0-13 x chunk 1-5 x offset 0-6 x overlap < chunk x align of chunk_ranges) plus random lists over "
         "2-6 symbols, passed as list/tuple/generator/one-shot iterator/str/bytes; "
         "non-trivial = the call exercises the helper's state: >=2 chunks or a padded chunk, >=2 windows, a separator "
         "present, something stripped, a duplicate key, >=2 buckets or a bucket of >=2, >=2 ranges; "
@@ -732,6 +733,16 @@ def generate(rng, tier, n):
             for fn in SEQ_FNS:
                 yield _one(rng, tier, fn, src=list(t))
                 emitted += 1
+    # (a') thorough: the complete grid of small valid chunk_ranges parameters
+    if tier != "quick":
+        for size in range(0, 14):
+            for chunk in range(1, 6):
+                for offset in range(0, 7):
+                    for overlap in range(0, chunk):
+                        for align in (False, True):
+                            yield {"fn": "chunk_ranges", "size": size, "chunk": chunk, "offset": offset,
+                                   "overlap": overlap, "align": align, "kwargs": False, "form": "int"}
+                            emitted += 1
     # (b) random cases
     names = [f for f, _ in FNS]
     weights = [w for _, w in FNS]
